@@ -145,7 +145,7 @@ func genFor(p *Program, prop string, only string) ([]*FuncResult, []string) {
 			problems = append(problems, fmt.Sprintf("contract %s: function not found in /repo (renamed or removed)", key))
 			continue
 		}
-		fr := VerifyFunc(p, key, fn, k)
+		fr := safeVerifyFunc(p, key, fn, k)
 		out = append(out, fr)
 	}
 	for _, cg := range p.cs.ConstGlobals {
@@ -578,6 +578,24 @@ func goTestOf(file string) []byte {
 		return []byte("null")
 	}
 	return m["go_test"]
+}
+
+// safeVerifyFunc: a contract that can no longer be evaluated against the code
+// (an identifier that now denotes something of another type, a loop that has
+// another shape, ...) must not take the whole check down: it becomes one
+// failing obligation of the function, tagged with every property of the
+// contract (the contract no longer applies to the code = violation).
+func safeVerifyFunc(p *Program, key string, fn *ssa.Function, k *Contract) (res *FuncResult) {
+	defer func() {
+		if r := recover(); r != nil {
+			e := NewEval(p)
+			e.rootKey = key
+			msg := fmt.Sprintf("the contract cannot be evaluated against the current code (%v)", r)
+			e.oblige("contract/applies-to-the-code", "contract", allProps(k), "true", "false", msg, "")
+			res = &FuncResult{Key: key, Contract: k, Obls: e.obls, Ctx: e.c, Unsupported: []string{msg}}
+		}
+	}()
+	return VerifyFunc(p, key, fn, k)
 }
 
 func sanitizeFile(s string) string {
